@@ -2,6 +2,8 @@
 LEVEL = {"C15": "fault_enumeration"}
 
 ENGINES = [
+    {"name": "E4-schedx", "path": "e4 (+ sched, vsync, vgotomic)", "serves_properties": ["C20", "C04", "C06"],
+     "kind_free_text": "cooperative scheduler + DFS over choice sequences with iterative preemption bounding on the real code rebuilt with a go build -overlay that rewrites \"sync\" to verif/vsync and gotomic to verif/vgotomic; separate free-running -race pass"},
     {"name": "E3-crashx", "path": "e3", "serves_properties": ["C15"],
      "kind_free_text": "crash-point enumeration with real child processes killed by SIGKILL at verif-tag hook points in wasp/messages/store.go, restarted on the same directory"},
     {"name": "E2-brokermc", "path": "e2", "serves_properties": ["C01", "C02", "C03", "C05", "C07", "C11", "C12", "C13", "C14", "C16", "C17", "C18"],
@@ -11,6 +13,10 @@ ENGINES = [
 ]
 
 PHASES = {
+    "C20": [
+        {"pkg": "e4", "test": "TestC20Schedules", "phase": "C20/schedules"},
+        {"pkg": "e4", "test": "TestC20Race", "phase": "C20/race-pass", "race": True},
+    ],
     "C15": [
         {"pkg": "e3", "test": "TestC15Crash", "phase": "C15/crash-points"},
     ],
@@ -63,9 +69,13 @@ PHASES = {
     ],
     "C04": [
         {"pkg": "e1", "test": "TestC04Queue", "phase": "C04/queue-sequences"},
+        {"pkg": "e4", "test": "TestC20Schedules", "phase": "C04/schedules",
+         "env": {"VERIF_E4_PROPERTY": "C04", "VERIF_E4_FILTER": "ack.Queue,pqList,skipList"}},
     ],
     "C06": [
         {"pkg": "e1", "test": "TestC06Pool", "phase": "C06/allocator-states"},
+        {"pkg": "e4", "test": "TestC20Schedules", "phase": "C06/schedules",
+         "env": {"VERIF_E4_PROPERTY": "C06", "VERIF_E4_FILTER": "idpool"}},
     ],
     "C19": [
         {"pkg": "e1", "test": "TestC19Topics", "phase": "C19/topics-store"},
@@ -74,6 +84,12 @@ PHASES = {
 }
 
 META = {
+    "C20": {
+        "engine": "E4-schedx (+ free-running -race pass)",
+        "technique": "stateless model checking of the real shared structures under a cooperative scheduler: every interleaving of 3 threads at lock / lock-free-hash operations up to a preemption bound (iterative context bounding), linearizability oracle; plus a separate free-running race-detector pass",
+        "text": "13 three-thread scenarios on colliding keys over the session registry, identifier pool, in-flight table, both timeout lists, subscription and retained tries, replicated session/subscription state and the per-session filter list; sync and gotomic are replaced by scheduler-aware shims through a build overlay regenerated from the working tree on every run; every schedule with at most 2 (quick) / 3 (thorough) preemptions is executed on a fresh instance and its (results, final observation) must be explained by a sequential order of the operations consistent with real-time order; deadlocks and panics are violations. The same bodies then run free on real goroutines under the race detector (sampling, reported separately).",
+        "note": "Choice points are synchronisation operations only: unsynchronised accesses are visible to the race pass, not to the scheduler; gotomic's internal CAS loops are trusted; each hash operation is one atomic step.",
+    },
     "C15": {
         "engine": "E3-crashx",
         "technique": "exhaustive crash-point enumeration: the real consumer runs in child processes that are killed with SIGKILL at named hook points (offset x phase), over bounded sequences of crash/restart rounds with appends in between, on real files",
